@@ -93,7 +93,7 @@ pub struct Listeners {
     /// blocking) locks: a listener that looks into the same layer would deadlock there
     pub inside_lock: Arc<Mutex<Vec<String>>>,
     /// every delivery takes this long (ms of wall time passing inside the poll, see
-    /// trv_core::clock::add_skew): a listener that logs synchronously to a slow sink
+    /// trv_core::clock::burn): a listener that logs synchronously to a slow sink
     pub slow_ms: u64,
 }
 
@@ -112,11 +112,7 @@ impl Listeners {
                 me.inside_lock.lock().unwrap().push(ev.to_string());
             }
             if me.slow_ms > 0 {
-                let t0 = std::time::Instant::now();
-                trv_core::clock::add_skew(Duration::from_millis(me.slow_ms));
-                if std::env::var("VERIF_DEBUG_SKEW").is_ok() {
-                    eprintln!("skew: event {ev} listener {i}: std clock moved by {:?}", t0.elapsed());
-                }
+                trv_core::clock::burn(Duration::from_millis(me.slow_ms));
             }
             if me.panics[i] {
                 panic!("listener {i} panics on purpose");
